@@ -2059,10 +2059,12 @@ class Memoer(Tymee):
             else:
                 raise  # unexpected error
 
-        if cnt:
-            del gram[:cnt]  # remove from buffer those bytes sent
+        if dst is not None:  # not dropped so keep any unsent remainder in .txbs
+            del gram[:cnt]  # remove from buffer those bytes sent if any
             if not gram:  # all sent
                 dst = None  # done indicated by setting dst to None
+            # update .txbs even when nothing sent (would block) so that a newly
+            # dequeued gram is retried later instead of being lost
             self.txbs = (gram, dst)  # update .txbs to indicate if completely sent
 
         return (False if dst else True)  # incomplete return False, else True
